@@ -62,17 +62,11 @@ def check_case(ctx, case):
 
 
 def gen_sources(ctx, rng):
-    """yield (gen name, ddl, ctor)"""
-    r = rng.random()
-    if r < 0.45:
-        s = GS.gen_mixed(rng, with_comments=0.2)
-        return "mixed", s["text"], {}
-    if r < 0.7:
-        ts = [S.gen_table(rng, q, max_cols=6, clauses=True) for q in range(rng.randint(1, 3))]
-        layout = rng.choice([None, {"case": "lower"}, {"case": "random", "ws": True}])     # keyword case must not leak into the shape either
-        return "tables", finish_script([render(S.table_tokens(t), layout, rng) for t in ts]), {}
-    h = c04.gen_history(rng)
-    return "history", "\n".join(h["stmts"]) + "\n", {}
+    """yield (gen name, ddl, ctor) from the shared pool of every generator (vf.gen.sources)"""
+    from vf.gen import sources
+    k, ddl = sources.any_script(rng)
+    ctx.obs["source:" + k] += 1
+    return k, ddl, {}
 
 
 def run_shard(ctx):
